@@ -28,7 +28,7 @@ ORACLES = ["true", "constant", "two", "vanish"]
 
 
 def gen_cases(tier, seed):
-    reps = {"quick": 14, "thorough": 120}[tier]
+    reps = {"quick": 14, "thorough": 400}[tier]
     cases = []
     for name, e in POOL.items():
         r = max(2, reps // e.slow)
